@@ -104,9 +104,40 @@ let run_blk line =
        | BlkFuel _ -> print_endline "blk MODEL_OUT_OF_FUEL")
   | _ -> print_endline "blk badtable"
 
+(* fblk: the whole decode_mcu of one block: fast path when >= 512 bytes, fall back to the slow
+   (bit-level) model when the fast path met a marker *)
+let run_fblk line =
+  let fs = fields line in
+  let dcb = 0 :: ints (List.nth fs 0) and dcv = ints (List.nth fs 1) in
+  let acb = 0 :: ints (List.nth fs 2) and acv = ints (List.nth fs 3) in
+  let data = bytes_of_hex (String.trim (List.nth fs 4)) in
+  let pad l = l @ List.init (256 - List.length l) (fun _ -> 0) in
+  match make_d_derived (zl dcb) (zl (pad dcv)) true (z_of_int 15), make_d_derived (zl acb) (zl (pad acv)) false (z_of_int 15) with
+  | Some d, Some a ->
+      (match decode_block_fast d a (fstate0 (zbytes data) []) with
+       | FDone (st, s') when not s'.f_marker ->
+           let maxrd = List.fold_left (fun m r -> max m (int_of_z r)) (-1) s'.f_reads in
+           Printf.printf "fblk %s pos=%d bits=%d maxread=%d\n" (pr_ints (il (apply_stores st))) (int_of_z s'.f_pos) (List.length s'.f_bits) maxrd
+       | FDone (_, _) ->
+           (* marker seen by the prefetch: decode_mcu_fast returns FALSE, decode_mcu_slow starts over *)
+           let rec unstuff = function
+             | 255 :: 0 :: t -> 255 :: unstuff t
+             | 255 :: 255 :: t -> unstuff (255 :: t)
+             | 255 :: _ -> []
+             | b :: t -> b :: unstuff t
+             | [] -> [] in
+           let bits = bits_of_bytes (unstuff data) @ List.init 2048 (fun _ -> false) in
+           (match decode_block d a bits with
+            | BlkDone (st, _) -> Printf.printf "fblk %s slow\n" (pr_ints (il (apply_stores st)))
+            | _ -> print_endline "fblk susp")
+       | FStuck -> print_endline "fblk MODEL_STUCK"
+       | FFuel -> print_endline "fblk MODEL_OUT_OF_FUEL")
+  | _ -> print_endline "fblk badtable"
+
 let () = iter_lines (fun line ->
   let line = String.trim line in
   if String.length line >= 4 && String.sub line 0 4 = "hdr " then run_hdr (String.trim (String.sub line 4 (String.length line - 4)))
   else if line = "hdr" then run_hdr ""
   else if String.length line >= 4 && String.sub line 0 4 = "blk " then run_blk (String.sub line 4 (String.length line - 4))
+  else if String.length line >= 5 && String.sub line 0 5 = "fblk " then run_fblk (String.sub line 5 (String.length line - 5))
   else print_endline "?")
